@@ -169,8 +169,16 @@ class Model:
     """Pipe to the extracted model."""
 
     def __init__(self):
+        def big_stack():
+            # the extracted code is not tail-recursive everywhere (long request lines, long digit strings)
+            import resource
+            soft, hard = resource.getrlimit(resource.RLIMIT_STACK)
+            try:
+                resource.setrlimit(resource.RLIMIT_STACK, (hard, hard))
+            except (ValueError, OSError):
+                pass
         self.p = subprocess.Popen([str(BUILD / "runner")], stdin=subprocess.PIPE,
-                                  stdout=subprocess.PIPE, text=True, bufsize=1)
+                                  stdout=subprocess.PIPE, text=True, bufsize=1, preexec_fn=big_stack)
         self.calls = 0
 
     def call(self, *req):
@@ -180,6 +188,10 @@ class Model:
         self.p.stdin.flush()
         out = self.p.stdout.readline()
         if not out:
+            try:
+                (BUILD / "failed_request.sexp").write_text(line + "\n")
+            except OSError:
+                pass
             raise RuntimeError(f"model runner died on request: {line[:300]}")
         self.calls += 1
         return sexp.loads(out)
